@@ -225,12 +225,16 @@ def sibling_builders(facts, res):
             out += k[pos:m.start()] + "*this.getBoxPosFromIndex(*this.getParentIndex(" + k[m.end():j - 1] + "))"
             pos = j + 1
         return out + k[pos:]
+    deferred = []
     for name in LIST_BUILDERS:
         a = [m for m in facts.methods_of(ORDERINGS[0]) if m["name"] == name]
         b = [m for m in facts.methods_of(ORDERINGS[1]) if m["name"] == name]
         if len(a) != 1 or len(b) != 1:
             raise AnalysisBroken("list builder %s not found in both ordering classes" % name)
-        sibling.compare(facts, res, R, a[0], b[0], what="ordering ", rewrite=apply_lemma, proven_helper=parent_lemma)
+        try:
+            sibling.compare(facts, res, R, a[0], b[0], what="ordering ", rewrite=apply_lemma, proven_helper=parent_lemma)
+        except AnalysisBroken as e_:
+            deferred.append(e_)      # a restructuring this comparison cannot judge must not hide what the per-cell / per-group comparison finds
         n += 1
     for cls in ORDERINGS:
         for x, y in (("getInteractionListForIndex", "getInteractionListForBlock"), ("getNeighborListForIndex", "getNeighborListForBlock")):
@@ -301,6 +305,8 @@ def sibling_builders(facts, res):
                 res.violation(R + ".cell-vs-group", tbf.rel(facts.path_of(B2[k])), fb["qname"], ("extra:" + k)[:110], B2[k]["l"][1],
                               "the per-group builder %s has `%s` which the per-cell builder %s does not" % (y, k[:160], x))
             n += 1
+    if deferred and not any(v["rule"].startswith(R) for v in res.violations):
+        raise deferred[0]
     res.floor(R, n, 12, "sibling comparisons")
 
 _LOC = re.compile(r"(local|mutable):w\d+")
